@@ -130,6 +130,9 @@ func removeOTRMsgEnvelope(msg encodedMessage) []byte {
 }
 
 func decode(encoded encodedMessage) (messageWithHeader, error) {
+	if len(encoded) <= len(msgMarker) {
+		return nil, errInvalidOTRMessage
+	}
 	encoded = removeOTRMsgEnvelope(encoded)
 	msg, err := b64decode(encoded)
 
